@@ -280,7 +280,7 @@ pub fn run(ctx: &Ctx, replay: Option<&serde_json::Value>) {
     }
     ctx.set_rule("(TokenPlan T of 1-3 blocks, appended block B first- or third-party under a key no scope of T or the authorizer names, AuthorizerAst A); B reuses the predicate names and constants that checks, policies and rule bodies of T and A look for, carries any scopes, typed or untyped expressions; metamorphic oracle between authorize(T, A) and authorize(T+B, A): no new acceptance, failed checks persist, no earlier check changes, same matched policy, facts of origins without B unchanged, default-scope queries unchanged; non-trivial = B has a fact or rule head whose predicate occurs in a check, policy or rule body of T or A; distinct = hash(T, A, B)");
     ctx.assume("an execution / limit / build error of the extended token counts as refused");
-    let cases = ctx.tier.pick(12_000, 900_000);
+    let cases = ctx.tier.pick(60_000, 900_000);
     let cfg = GenCfg {
         max_facts: 4,
         max_rules: 2,
